@@ -14,7 +14,7 @@ def chunks(out):
     return sorted(os.path.join(out, d) for d in os.listdir(out) if d.startswith("chunk-"))
 
 
-NO_DEVS = ("Trace_Api", "Trace_Pools", "Trace_RegexpCache", "Trace_Result")
+NO_DEVS = ("Trace_Api", "Trace_Pools", "Trace_RegexpCache", "Trace_Result", "Trace_Frame")
 
 
 def cfg(open_devs, extra="", module=""):
